@@ -20,12 +20,68 @@ FAMILIES = {
     "core_m": fam(Ctors=["var", "const", "map", "map2", "fold"], Fs1=["id", "inc", "const0"],
                   MaxVars=2, MaxNodes=4, MaxActs=9, MaxRounds=3),
     # one bind, fresh-map recipe over every existing node
-    "bind_s": fam(Ctors=["var", "map", "bind"], RecipeKinds=["map"], MaxNodes=5, MaxActs=10, MaxH=16),
+    "bind_s": fam(Ctors=["var", "map", "bind"], RecipeKinds=["map"], MaxNodes=5, MaxActs=9, MaxH=16),
     "bind_m": fam(Ctors=["var", "map", "bind"], RecipeKinds=["map"], MaxNodes=5, MaxActs=11, MaxH=16),
+    # bind with pre-existing right-hand sides / constants, two vars
+    "pick_s": fam(Ctors=["var", "map", "bind"], RecipeKinds=["pick", "const"], MaxVars=2, MaxNodes=4, MaxActs=9, MaxH=16),
+    # leaked inner nodes observed from outside (C03 invalidity)
+    "leak_s": fam(Ctors=["var", "map", "bind"], RecipeKinds=["leakmap"], MaxNodes=4, MaxObs=2, MaxActs=9, MaxRounds=3, MaxH=16),
+    # nested bind
+    "nest_s": fam(Ctors=["var", "bind"], RecipeKinds=["nested"], MaxVars=2, MaxNodes=4, MaxActs=8, MaxRounds=3, MaxH=16),
+    # map_ref / map_with_old / pairs under necessity changes
+    "ref_s": fam(Ctors=["pvar", "mapref", "pmap"], Fs1=["id", "fst"], MaxNodes=3, MaxObs=2, MaxActs=8, MaxRounds=3),
+    "mwo_s": fam(Ctors=["var", "mwo", "map", "mapref"], Fs1=["id", "const0"], MaxNodes=3, MaxObs=2, MaxActs=8, MaxRounds=3),
+    # cutoffs on every node incl. vars, K = 3 so that non-equal suppression exists
+    "cut_s": fam(K=3, Ctors=["var", "map", "cutoff"], Fs1=["id", "min1"], Cutoffs=["never", "always", "min1", "le"],
+                 MaxNodes=3, MaxObs=1, MaxActs=8, MaxRounds=3),
+    # observers, clones, subscriptions
+    "obs_s": fam(Ctors=["var", "map"], Fs1=["id", "const0"], MaxNodes=2, MaxObs=2, MaxSubs=2, MaxActs=9, MaxRounds=3),
+    # var write operations
+    "var_s": fam(Ctors=["var", "map"], Fs1=["id"], Ops=["set", "update", "modify", "replace", "replace_with"],
+                 MaxNodes=3, MaxObs=2, MaxActs=9, MaxRounds=3),
+    # user functions that panic at their k-th run: crash-point enumeration (C13)
+    "panic_s": fam(Ctors=["var", "map", "map2"], Fs1=["id"], Effs=["panic"], MaxNodes=3, MaxObs=2, MaxActs=9, MaxRounds=3),
+    # user functions that write vars / read observers while stabilising (C08, C07)
+    "eff_s": fam(Ctors=["var", "map"], Fs1=["id"], Effs=["set", "read"], Ops=["set", "update"],
+                 MaxVars=2, MaxNodes=3, MaxObs=1, MaxActs=7, MaxRounds=3),
+    # expert constructions
+    "xjoin_s": fam(Ctors=["var", "nvar", "xjoin"], MaxVars=3, MaxNodes=5, MaxObs=1, MaxActs=9, MaxRounds=3, MaxH=16),
+    "xsum_s": fam(K=3, Ctors=["var", "xsum"], MaxVars=2, MaxNodes=4, MaxObs=1, MaxActs=8, MaxRounds=3, MaxH=16),
 }
 
+# thorough variants: one more API action (and a longer TLC timeout) unless defined explicitly
+for _n in [n for n in list(FAMILIES) if n.endswith("_s")]:
+    _m = _n[:-2] + "_m"
+    if _m not in FAMILIES:
+        _d = dict(FAMILIES[_n]); _d["MaxActs"] += 1; _d["timeout"] = 3000
+        FAMILIES[_m] = _d
+FAMILIES["pick_q"] = dict(FAMILIES["pick_s"], MaxActs=8)
+# keep the exported sample of behaviours around 50-80k per family (TLC still visits every state)
+for _n, _mod in dict(bind_s=2, leak_s=2, nest_s=3, ref_s=4, mwo_s=6, cut_s=5, pick_s=6, pick_q=3, xjoin_s=3, xsum_s=2,
+                     bind_m=40, leak_m=12, nest_m=15, ref_m=20, mwo_m=30, cut_m=25, pick_m=30, xjoin_m=15, xsum_m=10,
+                     core_m=10, obs_m=6, var_m=2).items():
+    FAMILIES[_n]["ExportMod"] = _mod
+
+
+def plan(*names):
+    return dict(quick=list(names), thorough=[n[:-2] + "_m" if n.endswith(("_s", "_q")) else n for n in names])
+
+
+RND = dict(quick=48, thorough=600, len=40)
+
 PROPS = {
-    "C01": dict(families=dict(quick=["core_s", "bind_s"], thorough=["core_m", "bind_m"])),
+    "C01": dict(families=plan("core_s", "ref_s", "pick_q"), random=RND),
+    "C02": dict(random=RND, families=plan("bind_s", "nest_s")),
+    "C03": dict(random=RND, families=plan("leak_s", "bind_s")),
+    "C04": dict(families=plan("leak_s", "xjoin_s"), profiles=["debug", "release"]),
+    "C05": dict(random=RND, families=plan("obs_s", "pick_q")),
+    "C06": dict(random=RND, families=plan("cut_s", "mwo_s")),
+    "C07": dict(random=RND, families=plan("obs_s", "var_s")),
+    "C08": dict(random=RND, families=plan("var_s")),
+    "C09": dict(random=RND, families=plan("obs_s")),
+    "C10": dict(random=RND, families=plan("obs_s")),
+    "C11": dict(random=RND, families=plan("obs_s", "bind_s")),
+    "C14": dict(families=plan("xjoin_s", "xsum_s")),
     "C15": dict(stage_modules=["stage_mapops"]),
     "C17": dict(stage_modules=["stage_mapops"]),
     "C18": dict(stage_modules=["stage_symdiff"], stage_prop="C18"),
